@@ -166,41 +166,61 @@ def flip(rec, subset):
 # ---- atlas decorations ----------------------------------------------------------------------------------------------------
 
 def _decorate(g, r, kind):
-    """seeded decoration of an atlas graph: (atoms, bonds)"""
+    """seeded decoration of an atlas graph: (atoms, bonds); kinds: plain (all-carbon, single bonds), mixed (elements + bond orders),
+    stereo (distinct leaves on a carbon/nitrogen skeleton), cumul (a chain of 1-3 consecutive double bonds + distinct leaves)"""
     deg = dict(g.degree())
     nodes = list(g.nodes)
     if kind == 'plain':
         el = {v: 'C' for v in nodes}
-    elif kind == 'stereo':  # distinct substituents on leaves, carbon skeleton: favours stereogenic centres / double bonds
-        el = {v: (r.choice(LEAF_ELEMENTS) if deg[v] <= 1 else r.choice(('C', 'C', 'C', 'N'))) for v in nodes}
+    elif kind in ('stereo', 'cumul'):
+        el = {v: (r.choice(LEAF_ELEMENTS) if deg[v] <= 1 else r.choice(('C', 'C', 'C', 'C', 'N'))) for v in nodes}
     else:
         el = {v: (r.choice(LEAF_ELEMENTS) if deg[v] <= 1 and r.random() < .5 else r.choice(ELEMENTS)) for v in nodes}
-    od = {}
-    p2, p3 = (.35, .03) if kind == 'stereo' else (.25, .06) if kind != 'plain' else (0, 0)
-    for e in g.edges:
-        x = r.random()
-        if x < p3 and all(deg[v] <= 2 for v in e):
-            od[e] = 3
-        elif x < p2 + p3 and all(deg[v] <= 3 for v in e):
-            od[e] = 2
-        else:
-            od[e] = 1
-    atoms = {v: [el[v], None, 0, False, None] for v in nodes}
-    if kind == 'full':
-        from chython.periodictable import Element
-        for v in nodes:
+    od = {e: 1 for e in g.edges}
+    if kind == 'cumul':
+        # random walk over degree-2 inner nodes: consecutive double bonds
+        start = r.choice(nodes)
+        path, want = [start], r.choice((1, 1, 2, 2, 3))
+        while len(path) <= want:
+            nxt = [x for x in g[path[-1]] if x not in path and deg[x] <= 3]
+            if not nxt or (len(path) > 1 and deg[path[-1]] != 2):
+                break
+            path.append(r.choice(nxt))
+        for a, b in zip(path, path[1:]):
+            od[(a, b) if (a, b) in od else (b, a)] = 2
+            el[a] = el[b] = 'C'
+    else:
+        p2, p3 = (.3, .03) if kind == 'stereo' else (.25, .06) if kind != 'plain' else (0, 0)
+        for e in g.edges:
             x = r.random()
-            if x < .12:
-                atoms[v][2] = r.choice((-1, 1, -1, 1, -1, 1, 2, -2, 3, -3))
-            elif x < .20:
-                atoms[v][1] = r.choice(sorted(Element.from_symbol(el[v])().isotopes_distribution))
-            elif x < .26:
-                atoms[v][3] = True
-            elif x < .30:
-                atoms[v][2] = r.choice((-1, 1))
-                atoms[v][1] = r.choice(sorted(Element.from_symbol(el[v])().isotopes_distribution))
+            if x < p3 and all(deg[v] <= 2 for v in e):
+                od[e] = 3
+            elif x < p2 + p3 and all(deg[v] <= 3 for v in e):
+                od[e] = 2
     pos = {v: i for i, v in enumerate(nodes)}
-    return [tuple(atoms[v]) for v in nodes], [(pos[a], pos[b], od[(a, b)]) for a, b in g.edges]
+    return [(el[v], None, 0, False, None) for v in nodes], [(pos[a], pos[b], od[(a, b)]) for a, b in g.edges]
+
+
+def _variants(atoms, bonds, r, k=2):
+    """charge / isotope / radical variants of a valid neutral decoration; chemically plausible edits first (onium, -ate, carbanion,
+    carbocation, radical in place of a hydrogen), plus unconstrained ones; invalid results are filtered by the caller"""
+    from chython.periodictable import Element
+    out = []
+    for _ in range(k):
+        new = [list(a) for a in atoms]
+        for _ in range(r.choice((1, 1, 2, 3))):
+            v = r.randrange(len(new))
+            x = r.random()
+            if x < .3:
+                new[v][1] = r.choice(sorted(Element.from_symbol(new[v][0])().isotopes_distribution))
+            elif x < .5:
+                new[v][3] = True
+            elif x < .9:
+                new[v][2] = r.choice((-1, 1))
+            else:
+                new[v][2] = r.choice((-3, -2, 2, 3))
+        out.append(([tuple(a) for a in new], bonds))
+    return out
 
 
 def _with_component(atoms, bonds, comp):
@@ -261,34 +281,42 @@ def stereo_labelings(rec, r, max_k=4, max_rounds=3):
 
 def atlas_records(max_nodes, trials, tag='d01', stereo=True, components=True, max_k=4):
     """decorated atlas records (valence-valid only), de-duplicated by decoration.  Deterministic for a given VERIF_SEED."""
+    import networkx as nx
     r = D.rnd(tag)
     out = []
+    kinds = ('stereo', 'mixed', 'cumul', 'mixed')
     for g in D.atlas(max_nodes):
         seen = set()
         gname = g.name
-        for t in range(trials):
-            kind = 'plain' if t == 0 else ('stereo' if t % 3 == 1 else 'full')
-            atoms, bonds = _decorate(g, r, kind)
-            if components and kind == 'full' and r.random() < .3:
-                atoms, bonds = _with_component(atoms, bonds, r.choice(IONS))
-                if r.random() < .3:
+        tree = nx.is_tree(g)
+        for t in range(trials + (trials if tree else 0)):  # trees carry most of the stereo that is outside the documented gaps
+            kind = 'plain' if t == 0 else kinds[t % 4]
+            base = _decorate(g, r, kind)
+            cands = [base]
+            if kind == 'mixed' or t == 0:
+                cands += _variants(*base, r)
+            for ci, (atoms, bonds) in enumerate(cands):
+                atoms, bonds = list(atoms), list(bonds)
+                if components and ci and r.random() < .3:
                     atoms, bonds = _with_component(atoms, bonds, r.choice(IONS))
-            elif components and kind != 'plain' and len(atoms) <= 3 and r.random() < .3:
-                atoms, bonds = _with_component(atoms, bonds, (atoms, bonds))  # the same molecule twice
-            key = (tuple(atoms), tuple(bonds))
-            if key in seen:
-                continue
-            seen.add(key)
-            rec = {'id': f'{gname}#{t}', 'atoms': list(atoms), 'bonds': list(bonds), 'tet': [], 'ct': [], 'al': []}
-            try:
-                m, _ = build_rec(rec)
-            except Exception:
-                continue  # decoration not constructible (e.g. unknown isotope)
-            if m.check_valence():
-                continue
-            out.append(rec)
-            if stereo:
-                out.extend(stereo_labelings(rec, r, max_k=max_k))
+                    if r.random() < .3:
+                        atoms, bonds = _with_component(atoms, bonds, r.choice(IONS))
+                elif components and kind != 'plain' and len(atoms) <= 3 and r.random() < .3:
+                    atoms, bonds = _with_component(atoms, bonds, (atoms, bonds))  # the same molecule twice
+                key = (tuple(atoms), tuple(bonds))
+                if key in seen:
+                    continue
+                seen.add(key)
+                rec = {'id': f'{gname}#{t}.{ci}', 'atoms': atoms, 'bonds': bonds, 'tet': [], 'ct': [], 'al': []}
+                try:
+                    m, _ = build_rec(rec)
+                except ValueError:
+                    continue
+                if m.check_valence():
+                    continue
+                out.append(rec)
+                if stereo:
+                    out.extend(stereo_labelings(rec, r, max_k=max_k if (tree or kind != 'plain') else 2))
     return out
 
 
@@ -305,11 +333,11 @@ def ion_records():
 SPECIAL_SMILES = (
     'FC(Cl)=C=C(F)Cl', 'F[C@](Cl)(Br)I', 'F/C=C/F', 'F/C=C\\F', 'CC=C=CC', 'FC=C=C=CF', 'C(F)(Cl)=C=C=C(F)Cl',
     '[13CH3][C@H](F)[12CH3]', '[2H]C([3H])(F)Cl', 'C[C@H](F)[CH2]', '[CH2+][C@H](F)[CH2-]', '[Fe+3].[Fe+2].[Cl-].[37Cl-]',
-    '[N-3].[Al+3]', '[P-3]', '[CH3].[CH3]', '[O][O]', '[CH2]', 'C1CCC2(CC1)CCCCC2', 'C1=CC=CC=CC=C1', 'C1=CC=C1',
+    '[N-3].[Al+3]', '[P-3]', '[CH3].[CH3]', '[O][O]', 'C1CCC2(CC1)CCCCC2', 'C1=CC=CC=CC=C1', 'C1=CC=C1',
     'C[S+](C)[O-]', 'C[N+](C)(C)[O-]', '[NH4+].[OH-]', '[O-][Cl+3]([O-])([O-])[O-]', 'O=S(=O)([O-])[O-].[Mg+2]',
     'C12C3C4C1C5C2C3C45', 'c1ccc2c(c1)C1c3ccccc3C2c2ccccc12', 'C1CC2CCC1C2', 'C[C@H]1CC[C@@H](C)CC1', 'N[C@@H](C)C(=O)O',
     'C1CCCCCCCCC1C1CCCCCCCCC1', 'C/C=C/C=C/C=C\\C', 'C/C(F)=C(/C)Cl', 'F/C=C1/CC[C@H](C)CC1', 'OC1CCC(=CF)CC1',
     'C12=C3C4=C1C1=C2C3=C41', '[C-]#[O+]', 'C[Si](C)(C)C', 'B(O)(O)c1ccccc1', 'C1=CC2=CC=CC2=C1', 'c1cc[nH]c1', 'c1ccncc1',
-    'C%10CCCCC%10', 'C1CC1C1CC1', 'C1CC12CC2', '[U+6]', 'C[Hg]C', '[Cu+2].[O-]C(=O)C.[O-]C(=O)C',
+    'C%10CCCCC%10', 'C1CC1C1CC1', 'C1CC12CC2', '[U+4]', 'C[Hg]C', '[Cu+2].[O-]C(=O)C.[O-]C(=O)C',
     'C(C1)(C2)(C3)C1C23', 'C1C2CC3CC1CC(C2)C3',
 )
